@@ -60,7 +60,7 @@ type Path struct {
 	steps      int
 	maxSteps   int
 	unwind     int
-	pending    [][]int64
+	pending    []workItem
 	violations []Violation
 	reach      map[string]int
 	events     []string
@@ -188,11 +188,24 @@ func (p *Path) decide(cond *Term) bool {
 	panic(abortPath{"infeasible", "both sides unsat"})
 }
 
-func appendCopy(tr []int64, alt int64) []int64 {
-	n := make([]int64, len(tr)+1)
-	copy(n, tr)
-	n[len(tr)] = alt
+// workItem is an unexplored alternative: the decisions of base followed by
+// alt. base shares the backing array of the path that discovered it (that
+// region is never written again), so a path of depth d costs O(d) memory for
+// all its pending alternatives instead of O(d²).
+type workItem struct {
+	base []int64
+	alt  int64
+}
+
+func (w workItem) prefix() []int64 {
+	n := make([]int64, len(w.base)+1)
+	copy(n, w.base)
+	n[len(w.base)] = w.alt
 	return n
+}
+
+func appendCopy(tr []int64, alt int64) workItem {
+	return workItem{base: tr[:len(tr):len(tr)], alt: alt}
 }
 
 // choose is an n-way pure nondeterministic choice (all alternatives feasible).
